@@ -25,6 +25,7 @@ type reg struct {
 	scale    *big.Rat
 	level    int
 	deg      int
+	exact    bool // the recorded scale equals the model's rational scale bit for bit
 	prod     bool // derived from a product that has not been rescaled yet
 	resc     bool // a rescale was applied after a product
 }
@@ -69,6 +70,7 @@ func setup(c ProgCase) (*env, *rlwe.SecretKey, error) {
 	e.eval = ckks.NewEvaluator(params, evk)
 	e.ecd = ckks.NewEncoder(params)
 	e.encr = rlwe.NewEncryptor(params, sk)
+	e.encrPk = rlwe.NewEncryptor(params, kgen.GenPublicKeyNew(sk))
 	e.decr = rlwe.NewDecryptor(params, sk)
 	e.semb = secretEmbedding(params, sk)
 	e.eFresh = e.embGauss()
@@ -176,6 +178,9 @@ func (e *env) newInput(in InputSpec) (*reg, error) {
 			e.maxSeen = m
 		}
 		eps := e.epsFresh(sc, m)
+		if in.PK {
+			eps = e.epsFreshPK(sc, m)
+		}
 		lvl := maxL - in.LevelDrop
 		if lvl < 0 {
 			lvl = 0
@@ -192,11 +197,15 @@ func (e *env) newInput(in InputSpec) (*reg, error) {
 		if err := e.ecd.Encode(toBigComplex(raw), pt); err != nil {
 			return nil, h.Failf("C06:setup:encode", "Encode: %v", err)
 		}
-		ct, err := e.encr.EncryptNew(pt)
+		encr := e.encr
+		if in.PK {
+			encr = e.encrPk
+		}
+		ct, err := encr.EncryptNew(pt)
 		if err != nil {
 			return nil, h.Failf("C06:setup:encrypt", "EncryptNew: %v", err)
 		}
-		return &reg{ct: ct, vals: vals, logSlots: ls, eps: eps, scale: sc, level: lvl, deg: 1}, nil
+		return &reg{ct: ct, vals: vals, logSlots: ls, eps: eps, scale: sc, level: lvl, deg: 1, exact: ratFromFloat(&ct.Scale.Value).Cmp(sc) == 0}, nil
 	}
 	return nil, nil
 }
@@ -302,7 +311,9 @@ type runner struct {
 	executed []string
 	skipped  int
 	nondisc  bool
-	last     int // register written by the last executed step
+	last     int  // register written by the last executed step
+	inExact  bool // all scale-carrying inputs of the current step have bit-exact recorded scales
+	indep    bool // also decode with the independent reference decoder in this case
 	flags    map[string]bool
 }
 
@@ -335,6 +346,16 @@ func (r *runner) verify(key string, out *rlwe.Ciphertext, exp *reg, scaleDocumen
 	}
 	got := ratFromFloat(&out.Scale.Value)
 	scaleOK := got.Sign() > 0 && ratCmpTol(got, exp.scale, 110)
+	exactNow := got.Cmp(exp.scale) == 0
+	if scaleDocumented && scaleOK && !exactNow && r.inExact {
+		// every input scale was exact: where the documented formula is representable in the 128-bit scale, it must be hit exactly
+		if f := new(big.Float).SetPrec(rlwe.ScalePrecision).SetRat(exp.scale); f.Acc() == big.Exact && f.Sign() > 0 {
+			return h.Failf(key+":scale-not-exact", "recorded scale %s differs from the exactly representable documented value %s", out.Scale.Value.Text('p', 0), f.Text('p', 0))
+		}
+	}
+	if scaleDocumented && exactNow {
+		r.rec.Class("scale=bit-exact")
+	}
 	if scaleDocumented && !scaleOK {
 		return h.Failf(key+":scale", "recorded scale %s (2^%.6f), documented %s (2^%.6f)", out.Scale.Value.Text('g', 25), ratLog2Safe(got), new(big.Float).SetRat(exp.scale).Text('g', 25), ratLog2(exp.scale))
 	}
@@ -373,6 +394,22 @@ func (r *runner) verify(key string, out *rlwe.Ciphertext, exp *reg, scaleDocumen
 	if !scaleOK {
 		// Add/Sub document no output scale: the recorded one decodes correctly, adopt it
 		exp.scale = got
+	}
+	exp.exact = got.Cmp(exp.scale) == 0
+	if r.indep && exp.logSlots <= 6 {
+		ref, err := e.referenceDecode(pt, exp.logSlots)
+		if err != nil {
+			return h.Failf("C06:harness:reference-decoder", "%v", err)
+		}
+		tolRef := tol + (mw+exp.eps)*math.Exp2(-36)
+		for i := 0; i < n; i++ {
+			wr, _ := exp.vals[i].re.Float64()
+			wim, _ := exp.vals[i].im.Float64()
+			if d := cmplxAbs(ref[i] - complex(wr, wim)); !(d <= tolRef) {
+				return h.Failf(key+":reference-decoder", "slot %d: independent decoding of the decrypted polynomial gives %v, want (%g,%g), |diff|=%.3g > %.3g although Encoder.Decode was within tolerance", i, ref[i], wr, wim, d, tolRef)
+			}
+		}
+		r.rec.Class("reference-decoder-used")
 	}
 	if tol > math.Max(mw, 1)/8 {
 		r.nondisc = true
@@ -448,7 +485,7 @@ func runProg(c ProgCase, rec *h.Rec) error {
 	if err != nil {
 		return h.Failf("C06:setup:parameters", "%v", err)
 	}
-	r := &runner{e: e, rec: rec, flags: map[string]bool{}, last: -1}
+	r := &runner{e: e, rec: rec, flags: map[string]bool{}, last: -1, indep: c.Indep}
 	ringName := "std"
 	if c.Params.CI {
 		ringName = "ci"
@@ -479,6 +516,9 @@ func runProg(c ProgCase, rec *h.Rec) error {
 		if x == nil {
 			rec.Class("skip=input-does-not-fit")
 			continue
+		}
+		if in.PK {
+			rec.Class("input=public-key")
 		}
 		if x.logSlots < e.lms {
 			r.flags["sparse"] = true
@@ -541,6 +581,15 @@ func (r *runner) step(op Op) error {
 		ia = r.last
 	}
 	a := r.regs[ia]
+	r.inExact = a.exact
+	snapA := a.ct.CopyNew()
+	var bCt, snapB *rlwe.Ciphertext
+	useB := func(b *reg) {
+		r.inExact = r.inExact && b.exact
+		if b.ct != nil {
+			bCt, snapB = b.ct, b.ct.CopyNew()
+		}
+	}
 	maxL := e.params.MaxLevel()
 	mode := op.OutMode
 	io := op.Out % len(r.regs)
@@ -575,9 +624,6 @@ func (r *runner) step(op Op) error {
 				if io == f {
 					ok = false
 				}
-			}
-			if ok && r.regs[io].deg > naturalDeg {
-				ok = false // a receiver of larger degree keeps stale components: not a meaningful call
 			}
 			if !ok {
 				mode = "fresh"
@@ -615,8 +661,20 @@ func (r *runner) step(op Op) error {
 			return h.Failf(k+":unexpected-error", "%v", err)
 		}
 		exp.ct = out
+		if out != a.ct && !a.ct.Equal(snapA) {
+			return h.Failf(k+":op0-modified", "the call changed op0 although the receiver is a different ciphertext")
+		}
+		if bCt != nil && out != bCt && !bCt.Equal(snapB) {
+			return h.Failf(k+":op1-modified", "the call changed op1 although the receiver is a different ciphertext")
+		}
 		if verr := r.verify(k, out, exp, documented); verr != nil {
 			return verr
+		}
+		if outDeg > exp.deg {
+			r.rec.Class("receiver=larger-degree")
+		}
+		if mode == "reg" {
+			r.rec.Class("receiver=register-with-history:" + op.Kind)
 		}
 		r.place(op, mode, ia, io, exp)
 		r.executed = append(r.executed, op.Kind+":"+cls)
@@ -651,6 +709,7 @@ func (r *runner) step(op Op) error {
 					return nil
 				}
 			}
+			useB(b)
 			nat := maxI(a.deg, b.deg)
 			if mode == "new" {
 				outLevel = a.level
@@ -660,7 +719,8 @@ func (r *runner) step(op Op) error {
 			lvl := minI(a.level, b.level, outLevel)
 			ls := maxI(a.logSlots, b.logSlots)
 			av, bv := expand(a.vals, ls), expand(b.vals, ls)
-			exp := &reg{logSlots: ls, level: lvl, deg: nat, prod: a.prod || b.prod}
+			// a receiver of larger degree keeps its degree, the terms above the operands' degree are zeroed
+			exp := &reg{logSlots: ls, level: lvl, deg: maxI(nat, outDeg), prod: a.prod || b.prod}
 			exp.vals = make([]cx, len(av))
 			for i := range av {
 				exp.vals[i] = comb(av[i], bv[i])
@@ -787,6 +847,7 @@ func (r *runner) step(op Op) error {
 					return nil
 				}
 			}
+			useB(b)
 			nat := a.deg + b.deg
 			if relin && cls == "ct" {
 				nat = 1
@@ -914,6 +975,9 @@ func (r *runner) step(op Op) error {
 	case "MulThenAdd", "MulRelinThenAdd":
 		return r.stepMulThenAdd(op, key, cls, ia)
 
+	case "RotateHoisted":
+		return r.stepRotateHoisted(op, key, ia)
+
 	case "Rescale":
 		if a.level < e.nb {
 			r.skip("level-too-low")
@@ -964,6 +1028,7 @@ func (r *runner) step(op Op) error {
 		return finish(exp, outCt, err, true)
 
 	case "SetScale":
+		r.inExact = true // the target is recorded as given
 		mode = "inplace"
 		target := e.defaultScaleRat()
 		if op.K == 1 {
